@@ -143,7 +143,7 @@ func (ms *metaStore) deleteMeta(path metaPath) error {
 }
 
 func (ms *metaStore) deleteBucket(bucket string) error {
-	if err := ms.fs.RemoveAll(bucket); os.IsNotExist(err) {
+	if err := removeTree(ms.fs, bucket); os.IsNotExist(err) {
 		return nil
 	} else {
 		return err
